@@ -7,6 +7,7 @@ import (
 	"crypto/ecdsa"
 
 	"github.com/keep-network/keep-core/pkg/chain"
+	"github.com/keep-network/keep-core/pkg/generator"
 	"github.com/keep-network/keep-core/pkg/net"
 	"github.com/keep-network/keep-core/pkg/protocol/group"
 )
@@ -95,4 +96,67 @@ func VerifC24NewCoordinationMessage(
 
 func VerifC24CoordinationMessageUnmarshaler() net.TaggedUnmarshaler {
 	return &coordinationMessage{}
+}
+
+const (
+	VerifC24ActivePhaseDurationBlocks = coordinationActivePhaseDurationBlocks
+	VerifC24DurationBlocks            = coordinationDurationBlocks
+)
+
+// VerifC24NewCoordinatingExecutor builds the executor through the package's own
+// constructor so that coordinate() can be driven with a scripted block clock.
+func VerifC24NewCoordinatingExecutor(
+	c Chain,
+	walletPublicKey *ecdsa.PublicKey,
+	signingGroupOperators []chain.Address,
+	operatorAddress chain.Address,
+	proposalGenerator CoordinationProposalGenerator,
+	broadcastChannel net.BroadcastChannel,
+	membershipValidator *group.MembershipValidator,
+	waitForBlock func(ctx context.Context, block uint64) error,
+) *VerifC24Executor {
+	w := wallet{
+		publicKey:             walletPublicKey,
+		signingGroupOperators: signingGroupOperators,
+	}
+	return &VerifC24Executor{
+		ce: newCoordinationExecutor(
+			c,
+			w,
+			w.membersByOperator(operatorAddress),
+			operatorAddress,
+			proposalGenerator,
+			broadcastChannel,
+			membershipValidator,
+			generator.NewProtocolLatch(),
+			waitForBlock,
+		),
+	}
+}
+
+// LeaderAndChecklist re-exports getSeed + getLeader + getActionsChecklist for a window.
+func (v *VerifC24Executor) LeaderAndChecklist(
+	coordinationBlock uint64,
+) (chain.Address, []WalletActionType, error) {
+	seed, err := v.ce.getSeed(coordinationBlock)
+	if err != nil {
+		return "", nil, err
+	}
+	window := newCoordinationWindow(coordinationBlock)
+	return v.ce.getLeader(seed), v.ce.getActionsChecklist(window.index(), seed), nil
+}
+
+// Coordinate re-exports coordinate() and the fields of its result.
+func (v *VerifC24Executor) Coordinate(
+	coordinationBlock uint64,
+) (chain.Address, CoordinationProposal, []VerifC24Fault, error) {
+	result, err := v.ce.coordinate(newCoordinationWindow(coordinationBlock))
+	if err != nil {
+		return "", nil, nil, err
+	}
+	var out []VerifC24Fault
+	for _, f := range result.faults {
+		out = append(out, VerifC24Fault{Culprit: f.culprit, FaultType: f.faultType})
+	}
+	return result.leader, result.proposal, out, nil
 }
